@@ -103,6 +103,7 @@ class Concretiser:
         self.hook = hook
         self.nbody = 0
         self.mixed_cfg = False
+        self.fail_mailbox = ""    # fault injection: the store refuses deliveries to this mailbox
         self.origins = None       # C05: sender domains to rotate through for accepted-syntax MAIL commands
         self.norigin = 0
         # recipient classes: address, domain
@@ -144,7 +145,7 @@ class Concretiser:
     def cfg(self):
         p = dict(self.policy)
         p["rejectOrigin"] = [list(x) for x in p["rejectOrigin"]]
-        return {"policy": p, "maxRcpt": self.max_rcpt, "maxBytes": self.max_bytes, "naming": self.naming}
+        return {"policy": p, "maxRcpt": self.max_rcpt, "maxBytes": self.max_bytes, "naming": self.naming, "failMailbox": self.fail_mailbox}
 
     def verb(self, v):
         return mixcase(v, self.rng) if self.mixed else v
@@ -280,7 +281,7 @@ def behaviours_from(run, abstract, configs, stores, label):
                 conc = mk(random.Random("%d/%d/%d" % (run.seed, i, ci)))
                 steps = [conc.step(a) for a in seq]
                 out.append({"id": "%s-%d-%d-%s" % (label, i, ci, st), "store": st, "env": conc.env(), "cfg": conc.cfg(),
-                            "names": conc.mailboxes(), "steps": steps, "_abs": seq})
+                            "names": conc.mailboxes(), "steps": steps, "_abs": seq, "fail_mailbox": conc.fail_mailbox})
     return out
 
 
@@ -360,7 +361,15 @@ def c01(run, args):
             combos = [combos[(i + run.seed) % len(combos)]]
         # the recipient limit of the configuration is the one the sequences were generated for (tour: 2, others: 3)
         mr = 2 if i < ntour else 3
-        return [(lambda rng, n=n, p=p: Concretiser(rng, naming=n, policy=POLICIES[p], max_rcpt=mr)) for (n, p) in combos]
+
+        def mk(rng, n, p):
+            c = Concretiser(rng, naming=n, policy=POLICIES[p], max_rcpt=mr)
+            if (i + run.seed) % 4 == 0:
+                # fault injection: the store refuses deliveries to one of the mailboxes (alice's or bob's)
+                l_, d_, _ = c.rc[["a1", "b"][(i // 4) % 2]]
+                c.fail_mailbox = c.mailbox(l_, d_)
+            return c
+        return [(lambda rng, n=n, p=p: mk(rng, n, p)) for (n, p) in combos]
 
     stores = (lambda i: ["mem", "file"][(i + run.seed) % 2:][:1]) if quick else (lambda i: ["mem", "file"])
     beh = behaviours_from(run, bfs, configs, stores, "bfs")
